@@ -29,7 +29,7 @@ Inv_WellFormed ==
         /\ \A i \in 1..Len(Tree) : \A j \in 1..Len(Tree[i][3]) : IsXmlName(Tree[i][3][j][1])
 \* the mapping loses no information on the domain: distinct values have distinct documents
 Inv_Injective ==
-    (~HasV /\ Mode = "rt") =>
+    (~HasV /\ Mode = "rt" /\ ty \in RTTypes) =>
         LET V == ValuesOf(ty, Pool, Mode) IN Cardinality({SerTree(x, TypeOf(ty), RootBytes(ty)) : x \in V}) = Cardinality(V)
 
 Inv_Emit ==
